@@ -17,8 +17,10 @@ TEST_FILES = os.path.join(REPO, "src", "psyclone", "tests", "test_files")
 FORTRAN = {}
 
 
-def _seed(name, src, tiers=("quick", "thorough"), pre=(), api="nemo"):
-    FORTRAN[name] = {"src": src, "tiers": tiers, "pre": list(pre), "api": api}
+def _seed(name, src, tiers=("quick", "thorough"), pre=(), api="nemo",
+          file=None):
+    FORTRAN[name] = {"src": src, "tiers": tiers, "pre": list(pre), "api": api,
+                     "file": file}
 
 
 _seed("loops", """
@@ -564,6 +566,38 @@ _seed("profiled", _OMP_SRC, pre=[
 ])
 
 
+# --- algorithm-layer and kernel-layer seeds (files of the test-suite) --------
+_seed("alg_lfric", None, api="dynamo0.3", tiers=("thorough",),
+      file="dynamo0p3/15.14.4_builtin_and_normal_kernel_invoke.f90")
+_seed("alg_gocean", None, api="gocean1.0", tiers=("thorough",),
+      file="gocean1p0/single_invoke_two_kernels.f90")
+_seed("alg_lfric_raised", None, api="dynamo0.3", tiers=("thorough",),
+      file="dynamo0p3/15.14.4_builtin_and_normal_kernel_invoke.f90",
+      pre=[("RaisePSyIR2LFRicAlgTrans", {},
+            [{"t": "node", "p": [0, 0]}, {"t": "py", "v": 0}], {})])
+_seed("alg_gocean_raised", None, api="gocean1.0", tiers=("thorough",),
+      file="gocean1p0/single_invoke_two_kernels.f90",
+      pre=[("RaisePSyIR2AlgTrans", {},
+            [{"t": "node", "p": [0, 6, 3, 0]}, {"t": "py", "v": 0}], {})])
+_seed("kern_lfric", None, api="dynamo0.3", tiers=("thorough",),
+      file="dynamo0p3/testkern_mod.F90")
+_seed("kern_gocean", None, api="gocean1.0", tiers=("thorough",),
+      file="gocean1p0/compute_cu_mod.f90")
+
+_seed("adjoint", """
+subroutine tl(a, b, c, x, n)
+  integer, intent(in) :: n
+  real, intent(inout) :: a, b, c
+  real, intent(in) :: x
+  a = b + x * c
+  a = a + 2.0 * b
+  b = x
+  c = b * c
+  a = 0.0
+  a = b / x - c
+end subroutine tl
+""", tiers=("thorough",))
+
 # ---------------------------------------------------------------------------
 # PSy-layer seeds (api, algorithm file relative to test_files, dist. memory)
 # ---------------------------------------------------------------------------
@@ -594,6 +628,18 @@ _psy("lf_wtheta_dm", "dynamo0.3", "dynamo0p3/1_single_invoke_wtheta.f90",
      True, tiers=("thorough",))
 _psy("lf_dofs", "dynamo0.3", "dynamo0p3/1.14_single_invoke_dofs.f90", True,
      tiers=("thorough",))
+_psy("lf_kmi_clash", "dynamo0.3", "dynamo0p3/4_multikernel_invokes.f90",
+     False, pre=[
+         ("KernelModuleInlineTrans", {}, {"t": "node", "p": [0, 0, 3, 0]}, {}),
+         ("Dynamo0p3KernelConstTrans", {}, {"t": "node", "p": [0, 1, 3, 0]},
+          {"number_of_layers": 20}),
+     ])
+_psy("lf_coloured", "dynamo0.3", "dynamo0p3/1_single_invoke.f90", False,
+     pre=[("Dynamo0p3ColourTrans", {}, {"t": "node", "p": [0, 0]}, {})])
+_psy("lf_omp_region", "dynamo0.3", "dynamo0p3/1_single_invoke.f90", False,
+     pre=[("OMPParallelTrans", {},
+           {"t": "list", "p": [0], "i": 0, "j": 1}, {})],
+     tiers=("thorough",))
 _psy("go_two", "gocean1.0", "gocean1p0/single_invoke_two_kernels.f90", True)
 _psy("go_three", "gocean1.0", "gocean1p0/single_invoke_three_kernels.f90",
      False)
@@ -607,6 +653,15 @@ _psy("go_scalar", "gocean1.0",
 # {transformation: {seed: [ctor kwargs, ...]}}; such a transformation is only
 # attempted on the seeds listed here.
 SEED_CTOR = {
-    "RaisePSyIR2GOceanKernTrans": {},
-    "AssignmentTrans": {},
+    "RaisePSyIR2GOceanKernTrans": {
+        "kern_gocean": [{"metadata_name": "compute_cu"},
+                        {"metadata_name": "no_such_metadata"}],
+        "kern_lfric": [{"metadata_name": "testkern_type"}],
+        "loops": [{"metadata_name": "compute_cu"}],
+    },
+    "AssignmentTrans": {
+        "adjoint": [{"active_variables": {"$symbols": ["a", "b", "c"]}},
+                    {"active_variables": {"$symbols": ["a"]}}],
+        "loops": [{"active_variables": {"$symbols": ["a", "b"]}}],
+    },
 }
